@@ -1,5 +1,8 @@
 //! Checks of the node group: C04, C07, C14, C15, C16, C17, C40.
 mod eph;
+mod eph_oracle;
+#[path = "../../../fuzz/oracles/c16.rs"]
+mod fuzz_c16;
 mod props;
 
 fn main() {
